@@ -11,7 +11,12 @@
 //!    (ports created and dropped with live objects, loans, two clients x two servers), generator
 //!    phrases provoke channel recycling ("respond, drop pending without reading, new request, read"),
 //!    overlapping requests and responses after the pending response is gone;
-//!  * `probe.*` — the minimal histories of the known findings (reported as KNOWN-FINDING while open).
+//!  * `probe.*` — the minimal histories of the known findings (reported as KNOWN-FINDING while open);
+//!  * `conc.threads` — perturbed real-thread part (`conc_threads/c11_conc.rs`): 1..2 client threads and
+//!    1..2 server threads, every thread with its own node and port, act at the same time with seeded
+//!    noise at the instrumented atomics; invariant-only oracle over the recorded logs (requests
+//!    received exactly once / in order / only if sent, responses reach the request they answer,
+//!    is_connected follows the server side, no failing call), see the module header.
 //!
 //! Oracle (DESIGN C11 "O", per op, see `reqres::model` for the documented semantics and the
 //! relaxations R1-R6): (1) `Server::receive` yields every request at most once, only requests that
@@ -33,12 +38,16 @@ use checks_ice::reqres::types::*;
 use checks_ice::reqres::{Excl, RunOpts, Variant, model, policy, run_case};
 use vcore::{Ctx, Obs, Spec};
 
+#[path = "conc_threads/c11_conc.rs"]
+mod conc;
+
 const SPEC: Spec = Spec {
     prop: "C11",
     level: "exploration",
-    rule: "histories over the request-response API (create/drop client and server, loan/send request, server receive, loan/send response, pending-response receive, drop of response / pending response / active request, is_connected, has_response, has_requests) for max_clients 1..2 x max_servers 1..2 x max_active_requests 1..3 x response buffer 1..3 x borrow 1..2 x overflow(req,resp) x fire-and-forget x loan limits; bounded-exhaustive part: 1 client, 1 server, 2 overlapping requests, all applicable sequences of length L over 13 ops x 16 configurations x 2 prologues (fresh / channel ids cycled once); random part: proptest histories <= 80 ops with phrases that recycle channels while responses are queued; oracle = reference model compared with the return value of every op. Non-trivial = a channel id was taken by a new request while a response of its previous request was still queued in it, or >= 2 requests of one client overlapped. Distinct = hash of (part, configuration, op sequence).",
+    rule: "histories over the request-response API (create/drop client and server, loan/send request, server receive, loan/send response, pending-response receive, drop of response / pending response / active request, is_connected, has_response, has_requests) for max_clients 1..2 x max_servers 1..2 x max_active_requests 1..3 x response buffer 1..3 x borrow 1..2 x overflow(req,resp) x fire-and-forget x loan limits; bounded-exhaustive part: 1 client, 1 server, 2 overlapping requests, all applicable sequences of length L over 13 ops x 16 configurations x 2 prologues (fresh / channel ids cycled once); random part: proptest histories <= 80 ops with phrases that recycle channels while responses are queued; oracle = reference model compared with the return value of every op. Non-trivial = a channel id was taken by a new request while a response of its previous request was still queued in it, or >= 2 requests of one client overlapped. Distinct = hash of (part, configuration, op sequence). conc.threads: a case = (local|ipc, QoS record as above, 1..2 client threads x 1..2 server threads each owning its node and port, all ports created before the start barrier, discipline Held (pending response kept until is_connected() is false and receive() is drained) or Forget (fire-and-forget: dropped right after send, no responses), requests per client 20..60 (thorough 20..200), 0..k responses per request, hold windows for active requests and responses, DiscardData or blocking RetryUntilDelivered, noise level 0..3 at the instrumented atomics, seed); oracle = invariants over the recorded logs after a quiescence protocol, nothing depends on time; non-trivial = a server receive overlapped a client send (counter of sends in progress read when the receive returned) and >= 2 requests were in flight at the same time.",
     assumptions: &[
-        "single-threaded histories; ports use BackpressureStrategy::DiscardData (the blocking strategy cannot be driven from one thread)",
+        "exhaustive / random / probe parts: single-threaded histories; ports use BackpressureStrategy::DiscardData (the blocking strategy cannot be driven from one thread)",
+        "conc.threads: real threads, not bit-reproducible (a replay runs the case up to 30 times); pending responses are only dropped drained and disconnected, so the open finding rr.recycled_channel_not_clean is not triggered; ports neither appear nor vanish during a run; a case that does not finish within 240 s (normal: well under a second) makes the run inconclusive, never a violation",
         "order in which receive serves several connections is unspecified (R1); borrow limit per (pending response, server) stream or per pending response (R2); PendingResponse::is_connected unspecified while a server never got the request into its hands (R3)",
         "inputs that run into an open known finding are left out op by op and counted (excluded_by_known_finding); the probe parts keep the findings visible",
     ],
@@ -172,6 +181,7 @@ fn body(ctx: &mut Ctx) {
         exhaustive(ctx, &open, "exhaustive.deep", 7, true);
     }
     random(ctx, &open);
+    conc::part(ctx);
 }
 
 fn main() {
